@@ -265,6 +265,20 @@ func pathStr0(v ssa.Value, inPhi map[*ssa.Phi]bool) (root ssa.Value, path string
 			v = x.X
 		case *ssa.ChangeType:
 			v = x.X
+		case *ssa.Call:
+			callee := x.Call.StaticCallee()
+			idx, cp, ok := returnAlias(callee)
+			if !ok || idx >= len(x.Call.Args) {
+				return nil, "", false
+			}
+			// callee path components are appended in reverse order
+			cparts := strings.Split(cp, ".")
+			for i := len(cparts) - 1; i >= 0; i-- {
+				if cparts[i] != "" {
+					parts = append(parts, cparts[i])
+				}
+			}
+			v = x.Call.Args[idx]
 		case *ssa.Parameter, *ssa.FreeVar, *ssa.Global, *ssa.Alloc:
 			// reverse parts
 			for i, j := 0, len(parts)-1; i < j; i, j = i+1, j-1 {
@@ -1564,4 +1578,57 @@ func cyclesBack(v ssa.Value, inPhi map[*ssa.Phi]bool) bool {
 		}
 	}
 	return false
+}
+
+var aliasMemo = map[*ssa.Function][3]any{}
+
+// returnAlias: the function has a single result which on every return is a
+// (sub-slice of a) location reachable from one parameter: result aliases
+// param idx at path.
+func returnAlias(fn *ssa.Function) (idx int, path string, ok bool) {
+	if fn == nil || fn.Blocks == nil || fn.Signature.Results().Len() != 1 {
+		return 0, "", false
+	}
+	if fn.Pkg == nil || !strings.HasPrefix(fn.Pkg.Pkg.Path(), lzPath) {
+		return 0, "", false
+	}
+	if m, ok := aliasMemo[fn]; ok {
+		return m[0].(int), m[1].(string), m[2].(bool)
+	}
+	aliasMemo[fn] = [3]any{0, "", false}
+	idx = -1
+	for _, b := range fn.Blocks {
+		r, isR := b.Instrs[len(b.Instrs)-1].(*ssa.Return)
+		if !isR {
+			continue
+		}
+		switch r.Results[0].Type().Underlying().(type) {
+		case *types.Slice, *types.Pointer:
+		default:
+			return 0, "", false
+		}
+		root, p, ok := pathStr(r.Results[0])
+		if !ok {
+			return 0, "", false
+		}
+		par, isP := root.(*ssa.Parameter)
+		if !isP {
+			return 0, "", false
+		}
+		pi := -1
+		for i, q := range fn.Params {
+			if q == par {
+				pi = i
+			}
+		}
+		if idx >= 0 && (pi != idx || p != path) {
+			return 0, "", false
+		}
+		idx, path = pi, p
+	}
+	if idx < 0 {
+		return 0, "", false
+	}
+	aliasMemo[fn] = [3]any{idx, path, true}
+	return idx, path, true
 }
